@@ -26,7 +26,9 @@ def main():
     for sid in ids:
         pid = sid.split("_")[0]
         patch = os.path.join(ROOT, "seeded", sid, "patch.diff")
-        a = sh(["git", "-C", REPO, "apply", "--3way", patch])
+        a = sh(["git", "-C", REPO, "apply", patch])
+        if a.returncode != 0:
+            a = sh(["git", "-C", REPO, "apply", "--3way", patch])
         if a.returncode != 0:
             sh(["git", "-C", REPO, "checkout", "--", "."])
             sh(["git", "-C", REPO, "reset", "-q"])
